@@ -82,6 +82,64 @@ def table_check(ctx):
              "note": "precomputed table differs from compress(2^17*h*G) -> h"}], []
 
 
+def ambient_names():
+    """names of environment variables the library sources read at run time (outside their test modules)"""
+    import glob, re
+    names = {}
+    for f in sorted(glob.glob("/repo/zk-sdk/src/**/*.rs", recursive=True)):
+        try:
+            src = open(f).read()
+        except OSError:
+            continue
+        cut = src.find("#[cfg(test)]")
+        body = src if cut < 0 else src[:cut]
+        for m in re.finditer(r'env::(?:var|var_os|remove_var|set_var)\s*\(\s*"([^"]+)"|option_env!\s*\(\s*"([^"]+)"|env::(vars|vars_os|args)\s*\(', body):
+            nm = m.group(1) or m.group(2) or ("<" + m.group(3) + ">")
+            names.setdefault(nm, f.replace("/repo/", "") + ":" + str(body[:m.start()].count("\n") + 1))
+    return names
+
+
+def ambient_check(ctx):
+    """the behaviour of the library is a function of its arguments, not of the process environment: for every
+    environment variable the sources read, the property's op stream is replayed with the variable set and must give
+    the outcomes it gives with the variable unset (the library reads none today, so this is normally a no-op)"""
+    names = ambient_names()
+    rows = [f"ambient:{len(names)} environment reads in zk-sdk/src"]
+    if not names:
+        return [], rows
+    pid = ctx.get("pid")
+    P = PROPS.get(pid, {})
+    lines = []
+    for g in P.get("gens", [pid]):
+        rc, out, err = ctx["sh"]([ctx["ZKH"], "gen", g, ctx["tier"], str(ctx["seed"])])
+        lines += [l for l in out.split("\n") if l.strip()]
+    if not lines:
+        return [], rows
+    def run(env_extra):
+        env = dict(os.environ)
+        env.update(env_extra)
+        p = subprocess.run([ctx["ZKH"], "run"], input="\n".join(lines) + "\n", capture_output=True, text=True, env=env)
+        return dict(l.split(" ", 1) for l in p.stdout.split("\n") if " " in l)
+    base = run({})
+    out = []
+    for nm, where in names.items():
+        if nm.startswith("<"):
+            out.append({"kind": "ambient", "line": f"{where} reads {nm}", "impl": "reads the whole environment / argument list", "model": None,
+                        "note": "library behaviour must not depend on ambient process state"})
+            continue
+        for val in ("1", ""):
+            alt = run({nm: val})
+            diff = [i for i in base if alt.get(i) != base[i]]
+            rows.append(f"ambient:{nm}={val!r}:{len(diff)} differences")
+            for i in diff[:20]:
+                body = next((l for l in lines if l.startswith(i + " ")), i)
+                out.append({"kind": "ambient", "line": f"[env {nm}={val!r}; read at {where}] {body[:400]}", "impl": alt.get(i), "model": base[i],
+                            "note": "outcome with the environment variable set (impl) vs unset (model column)"})
+            if diff:
+                break
+    return out, rows
+
+
 PROPS = {
     "C01": dict(module="ZkElGamal.Props.C01", ns="Zk.Props.C01", trusted=[DALEK, MERLIN], assumptions=[ROM, DALEK, MERLIN]),
     "C02": dict(module="ZkElGamal.Props.C02", ns="Zk.Props.C02", trusted=[DALEK, MERLIN], assumptions=[ROM, DALEK, MERLIN]),
@@ -254,3 +312,9 @@ MANIFEST_TEXT = {
         text="Exhaustive finite-table equality: 13 discriminators, 13 proof types, 12 per-action context account sizes (= header + size_of context), header size, program address (base58-decoded) — proved by the kernel on regenerated tables and re-compared with values reported by the compiled crate. Correspondence: every byte 0..255 through the SDK's proof-type and instruction-type readers, a context state of every proof type for every context layout written and read back, zeroed accounts of each declared size.",
         note="Trusted: Lean kernel; translator's TS/Rust text parsing (a parse failure is reported as a broken obligation, never a silent pass)."),
 }
+
+for _pid, _P in PROPS.items():
+    if _P.get("gens", [_pid]):
+        _P.setdefault("extra", [])
+        if ambient_check not in _P["extra"]:
+            _P["extra"] = list(_P["extra"]) + [ambient_check]
